@@ -38,7 +38,7 @@ def safe_point(counter=[0]):
 
 def run_(ctx):
     ctx.rule = ("a case = (call mix, bytes delivered caller->callee before the cut, bytes delivered callee->caller, chunk "
-                "sizes, way the connection ends, what happens to stalled/late work afterwards) on two real Brokers, or a "
+                "sizes, way the connection ends, reason class of the ending, what happens to stalled/late work afterwards) on two real Brokers, or a "
                 "random abstract op sequence executed through the real callRemote/getRequest/complete/fail/finish; "
                 "distinct = distinct case tuple; non-trivial = at least one two-way request was in the table when the "
                 "connection ended, or the op sequence fired at least one Deferred")
@@ -78,7 +78,8 @@ def one(ctx, impl, traces, tag, cfg):
     try:
         with impl.quiet():
             r = impl.scenario(cfg["calls"], cfg["cutA"], cfg["cutB"], cfg.get("chunkA", 7), cfg.get("chunkB", 7),
-                              cfg.get("loss", "lost"), cfg.get("stall", "after"), tuple(cfg.get("after", ("ok", "oneway"))))
+                              cfg.get("loss", "lost"), cfg.get("stall", "after"), tuple(cfg.get("after", ("ok", "oneway"))),
+                              cfg.get("reason"))
     except Exception as e:
         import traceback
         ctx.fail("oracle/exception-escaped", "an exception escaped dataReceived/connectionLost/callRemote: %r on %r" % (e, cfg),
@@ -180,12 +181,14 @@ def wire_sweep(ctx, impl, traces):
             for cutA in cutsA:
                 for cutB in ([0, tB] if not thorough else [0, tB // 3, tB]):
                     cfg = dict(base, cutA=cutA, cutB=cutB, loss=ctx.rng.choice(impl.LOSS_MODES),
-                               chunkA=ctx.rng.choice([1, 3, 7, 50]), chunkB=ctx.rng.choice([2, 3, 7, 50]))
+                               chunkA=ctx.rng.choice([1, 3, 7, 50]), chunkB=ctx.rng.choice([2, 3, 7, 50]),
+                               reason=ctx.rng.choice(REASON_NAMES))
                     one(ctx, impl, traces, "cutA", cfg)
             # (2) everything sent, answers cut everywhere
             for cutB in cutsB_all:
                 cfg = dict(base, cutB=cutB, loss=ctx.rng.choice(impl.LOSS_MODES),
-                           chunkA=ctx.rng.choice([1, 7, 50]), chunkB=ctx.rng.choice([1, 2, 7, 50, 50]))
+                           chunkA=ctx.rng.choice([1, 7, 50]), chunkB=ctx.rng.choice([1, 2, 7, 50, 50]),
+                           reason=ctx.rng.choice(REASON_NAMES))
                 one(ctx, impl, traces, "cutB", cfg)
             # (3) every way of ending the connection at a few positions
             for loss in impl.LOSS_MODES:
@@ -193,9 +196,41 @@ def wire_sweep(ctx, impl, traces):
                     cfg = dict(base, cutA=cutA, cutB=cutB, loss=loss, chunkA=5, chunkB=5)
                     one(ctx, impl, traces, "loss", cfg)
     ctx.sample(dict(kind="cut", cfg=cfg))
+    reason_sweep(ctx, impl, traces)
+
+
+REASON_MIXES = [[], ["late"], ["ok"], ["late", "ok", "boom", "oneway", "late"], ["ok", "result_violation", "late", "big"],
+                ["stall", "ok", "late"]]
+
+
+def reason_sweep(ctx, impl, traces):
+    """every reason a connection can end with (each class named by LOST_CONNECTION_ERRORS, every stock and ad-hoc proper
+    subclass, unrelated exceptions) x 0..n calls outstanding in each state: written but not delivered (cutA=0), delivered and
+    hanging at the callee (cutB=0), answer in flight (cut inside the answers), everything answered but the late ones"""
+    for mix in REASON_MIXES:
+        base = dict(calls=mix, cutA=10 ** 9, cutB=10 ** 9)
+        with impl.quiet():
+            r0 = impl.scenario(mix, 10 ** 9, 10 ** 9)
+        tA, tB = r0["totalA"], r0["totalB"]
+        states = [("unsent", 0, 0), ("hanging", tA, 0), ("in-flight", tA, max(0, tB // 2 + 1)), ("half-sent", tA // 2 + 1, tB),
+                  ("answered", tA, tB)]
+        for name in REASON_NAMES:
+            for st, cutA, cutB in states:
+                modes = ["lost", "shutdown-then-lost", "lost-A-only", "lost-twice", "shutdown-other-then-data", "garbage-then-lost"]
+                if ctx.tier != "thorough":
+                    modes = [modes[0], ctx.rng.choice(modes[1:])]
+                for loss in modes:
+                    cfg = dict(base, cutA=cutA, cutB=cutB, loss=loss, reason=name, chunkA=9, chunkB=9)
+                    one(ctx, impl, traces, "reason", cfg)
+                    ctx.hist("reason_kind", impl.REASONS[name][1])
+                    ctx.hist("outstanding_state", st)
+    ctx.sample(dict(kind="reason", cfg=cfg, family=REASON_NAMES))
 
 
 # ------------------------------------------------------------------ random abstract op sequences on the real objects
+from harness.c03_impl import REASON_NAMES
+
+
 def gen_ops(rng, n):
     ops = []
     ncalls = 0
@@ -214,7 +249,7 @@ def gen_ops(rng, n):
         elif x < 0.72:
             ops.append(("Fail", rng.randint(0, ncalls - 1), rng.choice([4, 5, 7])))
         elif x < 0.80:
-            ops.append(("Finish", rng.choice([4, 4, 7])))
+            ops.append(("Finish", rng.choice(REASON_NAMES)))
         else:
             ops.append(("Turn",))
     return ops
@@ -235,6 +270,19 @@ def api_sequences(ctx, impl, traces):
             continue
         if r["errors"]:
             ctx.fail("harness/recorder", "recorder inconsistency: %r on %r" % (r["errors"][:3], ops), replay=dict(ops=ops), has_input=False)
+        bad = impl.judge_reason(r)
+        if bad and not any(x["sig"] == "oracle/api-" + bad[0] for x in ctx.failures):
+            def wrong(cand):
+                try:
+                    with impl.quiet():
+                        b2 = impl.judge_reason(impl.api_sequence(cand))
+                    return bool(b2) and b2[0] == bad[0]
+                except Exception:
+                    return False
+            small = common.shrink_list(ops, wrong)
+            with impl.quiet():
+                b3 = impl.judge_reason(impl.api_sequence(small))
+            ctx.fail("oracle/api-" + bad[0], "%s; op sequence %r" % ((b3 or bad)[1], small), replay=dict(ops=small, unshrunk=ops))
         if any(len(f) > 1 for f in r["fires"]) and not any(x["sig"] == "oracle/api-fired-twice" for x in ctx.failures):
             def twice(cand):
                 try:
@@ -273,7 +321,7 @@ def coq_op(op, impl):
     if k == "Fail":
         return "Fail %d%%nat %s" % (op[1], impl.ONAME[op[2]])
     if k == "Finish":
-        return "Finish %s" % impl.ONAME[op[1]]
+        return {"listed": "Finish (RListed %s)", "sub": "Finish (RSubclass %s)", "unrelated": "Finish RUnrelated%s"}[op[1]] % (op[2] or "")
     if k == "Turn":
         return "Turn"
     raise KeyError(op)
